@@ -52,10 +52,15 @@ def step (_ : Unit) (toks : List String) (rhs : String) : Unit × Verdict :=
       let done : Nat → Bool := match cancelAt with
         | none => fun _ => false
         | some c => fun k => decide (c ≤ k)
-      -- spec oracle: inside the property's quantifier (attempts ≥ 1, context alive)
-      if attempts ≥ 1 ∧ cancelAt.isNone ∧
-          rhs ≠ render (specCalls Err.retry attempts rs) (specOut Err.retry attempts rs) then
-        ((), .spec ("want " ++ render (specCalls Err.retry attempts rs) (specOut Err.retry attempts rs)))
+      -- spec oracle: inside the property's quantifier (attempts ≥ 1).  Context alive: exactly the
+      -- statement's call count and result.  Context ending at `cancelAt`: the statement's result, or
+      -- the context's cause only when the context had ended before a further attempt was due
+      -- (`specAllowed`; the model is in it by `retryDo_allowed`) — a result obtained from the final
+      -- attempt may not be replaced by the context's error.
+      let allowed := (specAllowed Err.retry attempts rs done).map fun p => render p.1 p.2
+      if attempts ≥ 1 ∧ !allowed.contains rhs then
+        ((), .spec ("want " ++ " or ".intercalate allowed ++
+          (if cancelAt.isSome then " (first success or last error is what the caller gets)" else "")))
       else
         match retryDo Err.retry attempts rs done (script.length + 2) with
         | some (c, o) => if rhs ≠ render c o then ((), .diff (render c o)) else ((), .ok)
